@@ -61,6 +61,13 @@ def enumerate_cases(tier: str):
         for parked in (1, 2):
             for senders in ([[0, True]], [[0, True], [0, True]], [[1, True], [3, True]], [[0, False], [0, True]]):
                 yield {"kind": "race", "config": {"version": version, "parked": parked, "other_parked": 0, "senders": senders}}
+    # the echo of an earlier command (incoming set with the ack flag) arrives while a newer command for the same key is held
+    for version in ("2.0", "2.1", "2.2"):
+        wake = ["rx", f"11;255;3;0;{32 if version == '2.2' else 22};7\n"]
+        for ack_b in (0, 1):
+            for echo in ("11;1;1;1;3;0\n", "11;1;1;1;3;1\n", "11;1;1;0;3;0\n", "11;2;1;1;3;0\n", "11;1;2;1;3;\n"):
+                ops = [["send", [11, 1, 1, 1, 3, "0"], None], wake, ["send", [11, 1, 1, ack_b, 3, "1"], None], ["rx", echo], wake, wake]
+                yield {"kind": "hist", "version": version, "ops": ops}
     # destinations registered with every kind of version text
     for version in ("1.5", "2.0", "2.2"):
         for text in ("", "unknown", "2.0.0-beta", "1.4", "2.2.0", "x.y", " ", "2", "v2.1"):
@@ -155,7 +162,7 @@ def _hist_strategy():
     other = st.one_of(
         st.builds(lambda n, v: ["rx", f"{n};255;0;0;17;{v}\n"], node, st.sampled_from(("2.0", "2.0", "", "unknown", "2.0.0-beta", "1.4", "2.2.0"))),
         st.builds(lambda n, c: ["rx", f"{n};{c};0;0;3;relay\n"], node, st.sampled_from((1, 2, 12))),
-        st.builds(lambda n, c, t, v: ["rx", f"{n};{c};1;0;{t};{v}\n"], node, st.sampled_from((1, 2, 12, 9)), st.sampled_from((3, 23)), st.sampled_from(("0", "1"))),
+        st.builds(lambda n, c, a, t, v: ["rx", f"{n};{c};1;{a};{t};{v}\n"], node, st.sampled_from((1, 2, 12, 9)), st.sampled_from((0, 1, 1)), st.sampled_from((3, 23)), st.sampled_from(("0", "1"))),
         st.builds(lambda n, c, t: ["rx", f"{n};{c};2;0;{t};\n"], node, st.sampled_from((1, 2, 12, 9)), st.sampled_from((3, 23))),
         st.builds(lambda n: ["rx", f"{n};255;3;0;0;50\n"], node),
         st.sampled_from((["rx", "0;255;3;0;9;log\n"], ["rx", "junk\n"], ["rx", "0;255;3;0;2;2.2.0\n"])),
